@@ -348,9 +348,9 @@ def run(ctx):
               ("P2/C5", adj_from_edges(2, [(0, 1)]), C5, False), ("C5/C5", C5, relabel(ctx.rng, C5), True),
               ("P20/S20", P20, S20, False), ("S20/P20", S20, P20, False)]
     pairs = list(corpus)
-    npairs = ctx.n(260, 1500)
+    npairs = ctx.n(420, 4000)
     for i in range(npairs):
-        big = ctx.thorough and i % 5 == 0
+        big = ctx.thorough and i % 3 == 0
         pairs.append(gen_pair(ctx, nmax if (big or not ctx.thorough) else 12))
 
     with cov:
@@ -564,7 +564,7 @@ def gen_distribution(r, length, total):
 def feas_stream(ctx, b):
     """check_assignment_feasibility on arbitrary distributions (not only those that arise from graphs)"""
     g, r = G(), ctx.rng
-    for _ in range(ctx.n(1500, 20000)):
+    for _ in range(ctx.n(2000, 40000)):
         md = r.randint(1, 7)
         p = r.randint(0, 7); q = p + r.randint(0, 3) if r.random() < 0.8 else r.randint(0, 9)
         v, u = gen_distribution(r, md, p), gen_distribution(r, md, q)
@@ -579,6 +579,10 @@ def feas_stream(ctx, b):
         b.add("mgh.feas %s %s %d" % (enc(v), enc(u), d), c)
 
         def ce(ans, v=v, u=u, d=d, fe=fe):
+            py = assignable_brute_py(v, u, d)
+            ctx.test("injection_oracles_agree(lean search vs python matching)", py == ans)
+            if py != ans:
+                raise common.HarnessError("the two injection oracles disagree on %r %r %r" % (v, u, d))
             ok = ans == fe
             ctx.test("greedy_feasibility_vs_exhaustive(sampled)", ok)
             if not ok:
@@ -660,7 +664,7 @@ def oracle_stream(ctx):
     r = ctx.rng
     g = G()
     cases, lines = [], []
-    for i in range(ctx.n(220, 1500)):
+    for i in range(ctx.n(320, 3500)):
         big = r.random() < (0.12 if not ctx.thorough else 0.2)
         hi = 6 if big else 5
         n, m = r.randint(1, hi), r.randint(1, hi)
@@ -732,8 +736,31 @@ def replay(ctx, rep):
 
 
 MANIFEST = {
-    "text": "PLACEHOLDER",
-    "note": "PLACEHOLDER",
+    "text": "Proof: Lean theorems (Props/C05.lean) about a line-by-line model of estimate/find_lb/find_ub over Nat matrices, against "
+            "the algorithm-independent definition mGH = 1/2 max(min_f dis f, min_g dis g) over all total maps, for distance matrices "
+            "of every size, every value of the wrapped sort-key product, every list of permutations and first images (hence every "
+            "generator state and every mapping_sample_size_order). ALL FULL STRENGTH, none _partial: trivial_lb_sound (diameter gap, "
+            "size collision), curvature_is_principal (kept rows form a principal submatrix with entries >= d whatever the sort keys), "
+            "thmA, thmB_row, greedy_complete (+ greedy_complete_list; [P2] discharged: a `false` answer of the sliding-window greedy "
+            "yields a Hall violator, proved by a loop invariant, and a Hall violator excludes every injection), find_lb_sound, "
+            "mapping_distortion_exact (construct_mapping returns a total map and exactly its distortion), "
+            "find_ub_of_min_distortion_sound, find_ub_sound, find_ub_total/estimate_total (no failure with >= 1 permutation), "
+            "brackets (lower <= mGH <= upper, both in (1/2)N; brackets_upper is its unconditional half), iso_lb_zero, "
+            "exhaustive_oracle_correct (the driver's mgh.spec search equals the specification), "
+            "mGH2_eq_zero_of_isometric, and feasibility_fuel_irrelevant / curvature_fuel_irrelevant (the recursion bounds the model "
+            "adds to the two while-loops are never exhausted). The model is tied to the code on every run: every anchored function "
+            "is called directly on BFS metrics of generated connected graphs with all np.random draws recorded and replayed into the "
+            "model, integer outputs compared exactly (find_lb, the curvature submatrix, distributions, unique maxima, feasibility, "
+            "construct_mapping, find_ub_of_min_distortion incl. the number of mappings built and permutations drawn, find_ub, estimate, "
+            "gromov_hausdorff).",
+    "note": "Trusted: Lean kernel + Mathlib, axioms propext/Classical.choice/Quot.sound; the correspondence harness and its RNG capture; "
+            "NumPy semantics transcribed in the model (argmin = first minimum, np.unique(axis=0), np.delete, masked sums, int8 "
+            "wrap-around of len(K)*diam_X); np.random.permutation/choice contracts (checked on every recorded draw). [T] only: the "
+            "bracket, half-integrality and iso-lb-0 evaluated on the real code against the exhaustive 2*mGH for |X|,|Y| <= 6 (Lean "
+            "`mgh.spec` cross-checked with an independent NumPy brute force), and the greedy feasibility against exhaustive injection "
+            "search on all small distributions (thorough: max_d <= 5, |v| <= 6, |u| <= 7). The exhaustive mGH oracle is itself proved equal to the Mathlib "
+            "specification (exhaustive_oracle_correct); the injection-search oracle is cross-checked with a Python matching instead. Graph-format handling in front of "
+            "estimate() is C17.",
     "technique": "Lean 4 theorems over a hand-written model with the RNG as an explicit input + differential correspondence "
                  "with recorded np.random draws + exhaustive oracle for small graphs",
 }
